@@ -65,6 +65,7 @@ STRUCT = {
     "ALLOC-INV": RHP.rule_alloc_inv,
     "OVERRIDE-INV": RHP.rule_override_inv,
     "CTOR-INV": RHP.rule_ctor_inv,
+    "PANIC-INV": RHP.rule_panic_inv,
     "STREAM": RI.rule_stream,
     "INPUT-MISC": RI.rule_input_misc,
 }
@@ -73,24 +74,24 @@ STRUCT = {
 PROP_RULES = {
     "C01": ["K", "D:POISON", "SEQ-PROV", "GRAMMAR", "ENTRY", "ENTRY-SIB", "CLONE-FIELDS", "MODE-PAIR", "NO-BACKTRACK", "HELPER-PROV", "READER-SIB", "INPUT-MISC", "OVERRIDE-INV"],
     "C02": ["K", "D:POISON", "BUILDER-PROV", "GRAMMAR", "CLONE-FIELDS", "ENTRY-SIB", "MODE-PAIR", "HELPER-PROV", "ALLOC-INV"],
-    "C03": ["ENTRY", "K", "STREAM", "D:POISON", "MODE-PURE", "GRAMMAR", "ENTRY-SIB", "SUB-INPUT", "D:KEEP*", "HOOKS-WRITERS", "INPUT-MISC", "MODE-PAIR", "HELPER-PROV", "OVERRIDE-INV", "CTOR-INV"],
+    "C03": ["ENTRY", "K", "STREAM", "D:POISON", "MODE-PURE", "GRAMMAR", "ENTRY-SIB", "SUB-INPUT", "D:KEEP*", "HOOKS-WRITERS", "INPUT-MISC", "MODE-PAIR", "HELPER-PROV", "OVERRIDE-INV", "CTOR-INV", "HOOKS-SAVE-REWIND"],
     "C04": ["MODE-PAIR", "MODE-PURE", "K", "D:POISON", "ENTRY-SIB", "OVERRIDE-INV"],
     "C05": ["D:POISON", "D:KEEP", "D:LIFO", "HOOKS-SAVE-REWIND", "HOOKS-WRITERS", "MODE-PURE", "SUB-INPUT", "K", "MODE-PAIR", "NO-BACKTRACK", "HELPER-PROV", "ENTRY", "ENTRY-SIB", "CTOR-INV"],
     "C07": ["K", "SPAN-PROV", "SPAN-EMPTY", "SPAN-IMPL", "READER-SIB", "INPUT-MISC", "GRAMMAR", "HELPER-PROV", "CTOR-INV"],
     "C10": ["READER-SIB", "SPAN-PROV", "SPAN-EMPTY", "SPAN-IMPL", "STREAM", "INPUT-MISC", "CHAR-SIB", "CHAR-PROV", "GRAMMAR", "HELPER-PROV"],
     "C06": ["D:ALT-LINEAR", "D:ALT-POS", "D:PFAIL", "ORDER-ARMS", "ERR-SPAN", "MERGE-ARMS", "ENTRY", "K", "READER-SIB", "SPAN-PROV", "SPAN-EMPTY", "SPAN-IMPL", "MODE-PAIR", "ERR-PROV", "HELPER-PROV", "CTOR-INV"],
-    "C08": ["K", "D:POISON", "D:ALT-LINEAR", "D:PFAIL", "MODE-PURE", "SUB-INPUT", "GRAMMAR", "D:KEEP*", "D:LIFO*", "HOOKS-SAVE-REWIND", "MODE-PAIR", "NO-BACKTRACK", "ENTRY", "ENTRY-SIB"],
+    "C08": ["K", "D:POISON", "D:ALT-LINEAR", "D:PFAIL", "MODE-PURE", "SUB-INPUT", "GRAMMAR", "D:KEEP*", "D:LIFO*", "HOOKS-SAVE-REWIND", "MODE-PAIR", "NO-BACKTRACK", "ENTRY", "ENTRY-SIB", "D:ALT-POS*", "ORDER-ARMS", "ERR-SPAN"],
     "C09": ["K", "D:POISON", "RECURSE", "AFFINE", "GRAMMAR", "MODE-PAIR"],
-    "C11": ["K", "D:ALT-LINEAR", "D:ALT-POS", "D:PFAIL", "MEMO-KEY", "MEMO-WRITERS", "GRAMMAR", "MODE-PAIR", "NO-BACKTRACK", "SUB-INPUT", "ERR-PROV"],
-    "C12": ["RECURSE", "ONCE", "CLONE-FIELDS", "K", "GRAMMAR", "MODE-PAIR", "HELPER-PROV", "OVERRIDE-INV"],
+    "C11": ["K", "D:ALT-LINEAR", "D:ALT-POS", "D:PFAIL", "MEMO-KEY", "MEMO-WRITERS", "GRAMMAR", "MODE-PAIR", "NO-BACKTRACK", "SUB-INPUT", "ERR-PROV", "PANIC-INV", "STATICS", "ORDER-ARMS", "MERGE-ARMS", "ERR-SPAN"],
+    "C12": ["RECURSE", "ONCE", "CLONE-FIELDS", "K", "GRAMMAR", "MODE-PAIR", "HELPER-PROV", "OVERRIDE-INV", "PANIC-INV"],
     "C13": ["FREEZE", "STATICS", "OWN-STATE", "CLONE-FIELDS", "MODE-PAIR", "K", "NO-BACKTRACK", "HELPER-PROV", "OVERRIDE-INV", "CTOR-INV"],
     "C14": ["CHAR-SIB", "CHAR-PROV", "REGEX-ANCHOR", "K", "HOOKS-TOKEN", "SEQ-PROV", "MODE-PURE", "GRAMMAR", "HELPER-PROV", "BUILDER-PROV"],
     "C15": ["K", "SUB-INPUT", "MODE-PAIR", "BUILDER-PROV", "GRAMMAR", "HELPER-PROV"],
-    "C16": ["K", "SUB-INPUT", "D:ALT-LINEAR", "D:PFAIL", "SPAN-PROV", "SPAN-EMPTY", "SPAN-IMPL", "READER-SIB", "GRAMMAR", "MODE-PAIR", "D:POISON*", "D:KEEP*", "D:LIFO*", "MODE-PURE"],
+    "C16": ["K", "SUB-INPUT", "D:ALT-LINEAR", "D:PFAIL", "SPAN-PROV", "SPAN-EMPTY", "SPAN-IMPL", "READER-SIB", "GRAMMAR", "MODE-PAIR", "D:POISON*", "D:KEEP*", "D:LIFO*", "MODE-PURE", "ORDER-ARMS", "ERR-SPAN", "D:ALT-POS*"],
     "C17": ["K", "D:ALT-LINEAR", "D:ALT-POS", "ERR-SPAN", "MODE-PAIR", "GRAMMAR", "ERR-PROV", "NO-BACKTRACK", "HELPER-PROV", "ORDER-ARMS", "MERGE-ARMS"],
     "C18": ["HOOKS-WRITERS", "HOOKS-TOKEN", "HOOKS-SAVE-REWIND", "SUB-INPUT", "D:POISON", "D:KEEP", "K", "GRAMMAR", "MODE-PAIR", "NO-BACKTRACK", "HELPER-PROV", "CTOR-INV"],
     "C19": ["UNSAFE-INV", "MAYBEUNINIT", "CONTAINER-PROV", "HELPER-PROV"],
-    "C20": ["D:PFAIL", "RECURSE", "INPUT-MISC", "NONCONSUMPTION-FWD", "MODE-PAIR", "K", "REGEX-ANCHOR", "HELPER-PROV", "READER-SIB", "ALLOC-INV"],
+    "C20": ["D:PFAIL", "RECURSE", "INPUT-MISC", "NONCONSUMPTION-FWD", "MODE-PAIR", "K", "REGEX-ANCHOR", "HELPER-PROV", "READER-SIB", "ALLOC-INV", "PANIC-INV"],
 }
 
 # properties whose typestate disciplines are restricted to the bodies of their own contract groups
